@@ -96,7 +96,8 @@ def run_driver(scen, env=None, timeout=2400, procs=1):
         out = os.path.join(sub("out"), "v2.%s.%d.ndjson" % (scen, p))
         if os.path.exists(out):
             os.remove(out)
-        e = {"VERIF_SCEN": scen, "VERIF_OUT": out, "VERIF_TIER": vlib.TIER, "VERIF_SEED": str(vlib.SEED), "VERIF_PROC": str(p)}
+        e = {"VERIF_SCEN": scen, "VERIF_OUT": out, "VERIF_TIER": vlib.TIER, "VERIF_SEED": str(vlib.SEED), "VERIF_PROC": str(p),
+             "VERIF_CASES": os.path.join(vlib.VERIF, "cases")}
         e.update(env or {})
         rc, txt, _ = go_overlay_test("v2", V2_SOURCES, "^TestVerifV2Trace$", env=e, timeout=timeout)
         part = read_ndjson(out)
